@@ -2,6 +2,7 @@
 
 from __future__ import annotations
 
+import time
 import traceback
 
 import hypothesis
@@ -34,7 +35,7 @@ class _Found(Exception):
 
 
 def drive(strategy, evaluate, n_examples: int, seed_parts, res: ShardResult, shrink_calls: int = 60,
-          max_buckets: int = 3, known_keys=()):
+          max_buckets: int = 3, known_keys=(), shrink_seconds: float = 90.0):
     """Run `evaluate` over `n_examples` generated cases.
 
     Failures are bucketed; for each new bucket Hypothesis shrinks (bounded by `shrink_calls` further
@@ -67,7 +68,7 @@ def drive(strategy, evaluate, n_examples: int, seed_parts, res: ShardResult, shr
         return o
 
     for round_ in range(max_buckets + 1):
-        state = {"best": None, "calls_after_fail": 0}
+        state = {"best": None, "calls_after_fail": 0, "t_fail": None}
 
         @hypothesis.seed(derive_seed(*seed_parts))
         @settings(
@@ -83,7 +84,8 @@ def drive(strategy, evaluate, n_examples: int, seed_parts, res: ShardResult, shr
         def test(case):
             if state["best"] is not None:
                 state["calls_after_fail"] += 1
-                if state["calls_after_fail"] > shrink_calls:
+                # the shrink budget (evaluations and wall time) only limits how small the reported case gets
+                if state["calls_after_fail"] > shrink_calls or time.time() - state["t_fail"] > shrink_seconds:
                     # shrink budget exhausted: only the best-known failure keeps failing
                     if spec_hash(case) == spec_hash(state["best"][0]):
                         raise _Found()
@@ -100,6 +102,8 @@ def drive(strategy, evaluate, n_examples: int, seed_parts, res: ShardResult, shr
                 res.count("violations_in_recorded_bucket")
                 return
             state["best"] = (case, o)
+            if state["t_fail"] is None:
+                state["t_fail"] = time.time()
             raise _Found()
 
         try:
